@@ -191,6 +191,8 @@ class Database(object):
         if not self._store[name].is_created:
             raise OperationFailure(
                 'The collection "{0}" does not exist.'.format(name), 10026)
+        if new_name == name:
+            raise OperationFailure("Can't rename a collection to itself", 20)
         if new_name in self._store:
             if dropTarget:
                 self.drop_collection(new_name)
